@@ -299,7 +299,7 @@ Record xstate := mkX { closed : bool; unterminated : nat }.
 
 (* StreamFlowExecutor.close: terminate(CANCELLED) on every step that is not terminated, then _closed = True *)
 Definition x_close (x : xstate) : xstate := if closed x then x else mkX true 0.
-(* StreamFlowExecutor._cancel, as repaired by the fix: commit (cancel output tasks, then close()).
+(* StreamFlowExecutor._cancel, as repaired by the fix: commit 7a62372 (cancel output tasks, then close()).
    The pre-fix code was [x_cancel_prefix] below: it only set _closed. *)
 Definition x_cancel (x : xstate) : xstate := if closed x then x else x_close x.
 Definition x_cancel_prefix (x : xstate) : xstate := if closed x then x else mkX true (unterminated x).
@@ -314,3 +314,7 @@ Definition x_step (cancel : xstate -> xstate) (x : xstate) (e : xevent) : xstate
 Definition x_run_tail (cancel : xstate -> xstate) (failed_out any_bad_status : bool) (x : xstate) : bool * xstate :=
   let x1 := if failed_out then cancel x else x_close x in
   if any_bad_status then (true, x_close x1) else (false, x1).
+
+(* The normal path: the last output port terminated, close() runs with u steps still unterminated; each of them
+   gets terminate(CANCELLED), i.e. status CANCELLED, and the status check after the loop then raises. *)
+Definition x_normal_path_raises (u : nat) (bad_before : bool) : bool := bad_before || negb (Nat.eqb u 0).
